@@ -33,10 +33,12 @@ LEVEL_TEXT = (
     "every cached value is the recursively evaluated value (sched_cache_sound), the loop ends within #keys "
     "iterations (sched_terminates), and nested_get returns the denoted values in the request's nesting "
     "(sched_result, getAsync_result); the recursive evaluation is a well-defined unique fixed point "
-    "(den_fixpoint, den_unique). The theorems assume the invariant of the state built by "
-    "start_state_from_dask (StartOK); that function is transliterated and diffed against the real one on every "
-    "run. The tie: the real `state` dict is compared with the model at every callback of get_async under a "
-    "controlled executor with the same adversary choices.")
+    "(den_fixpoint, den_unique). start_state_from_dask (explicit-stack traversal, transliterated) is proved to "
+    "terminate within its fuel, never to raise on a closed graph and to establish the scheduler invariant "
+    "(start_ok = Sched.startState_ok), so get_async_correct states the property with no hypothesis beyond: graph "
+    "acyclic and closed, dependencies listed once, requested keys present. The tie: the real `state` dict is "
+    "compared with the model at every callback of get_async under a controlled executor with the same adversary "
+    "choices; start_state_from_dask, finish_task, release_data are also diffed at function level.")
 LEVEL_NOTE = (
     "OS thread / process timing is NOT modelled: the model quantifies over every order in which outstanding "
     "batches may complete (adversary), the real executors (ThreadPoolExecutor, ProcessPoolExecutor, Queue, "
@@ -47,7 +49,7 @@ LEVEL_NOTE = (
 TECHNIQUE = "Lean 4 invariant proof over an adversarial state machine + differential state-trace correspondence under a controlled executor"
 ASSUMPTIONS = ["tasks are pure functions of their dependency values (symbolic `apply`)",
                "a user-supplied shared `cache=` mapping is outside the model (cache starts empty)",
-               "the state built by start_state_from_dask satisfies the invariant StartOK (validated by the `start` and `trace` sections)"]
+               "graphs are closed (every dependency is a key of the graph) - dask raises 'Missing dependency' otherwise (malformed stream)"]
 TRUSTED = ["concurrent.futures / threading / multiprocessing deliver completions in SOME order (adversarial order is modelled, timing is not)"]
 
 
